@@ -177,13 +177,10 @@ def specPage (h : History) (fs : List String) (iter : Bool) : String :=
     let cursor := unhex (kvArg rest "cursor")
     let maxb := natArg rest "maxb"
     let vals := kvArg rest "vals" == "1"
-    if iter then
-      iterKv (fun cur limit => let p := pageKv h rnd pfx cur limit maxb vals; .ok (p.items, p.more)) cursor (parseLimits (kvArg rest "limits"))
-    else
-      let limit := natArg rest "limit"
-      let p := pageKv h rnd pfx cursor limit maxb vals
-      -- LookupKvPairsByPrefix with limit 0 answers with the latest round
-      s!"ok r={if limit = 0 then latest else rnd} more={showBool p.more} {joinOr (p.items.map kvItemStr)}"
+    -- a box page is a non-empty prefix of the live list, not necessarily the longest one the caps allow (the DB layer may
+    -- stop early): the oracle prints the whole live list after the cursor, the check verifies the prefix / cover property
+    let _ := (maxb, iter)
+    s!"live r={rnd} {joinOr ((liveKv h rnd pfx cursor).map (fun it => kvItemStr (kvView vals it)))}"
   | _ => "bad-op"
 
 def specFull (h : History) (fs : List String) : String :=
